@@ -56,6 +56,13 @@ def points(tier):
                     for c in C:
                         for r in R:
                             pts.append({"kind": "wrapflag", "d": d, "c": c, "r": r, "engine": eng, "sign": sign, "noise": None})
+            # the dtypes= option (dict by mnemonic / list by position) over every small shape: when such a read succeeds
+            # it binds the columns like any other read (a read that raises is outside the statement)
+            for d in range(1, 5):
+                for c in range(1, 6):
+                    for r in (1, 2, 3):
+                        for how in ("dict", "list", "list-short"):
+                            pts.append({"kind": "dtypes", "d": d, "c": c, "r": r, "engine": eng, "sign": sign, "noise": None, "dtypes": how})
             # a column of ISO dates (a hyphen in every data row) with and without a remark line that itself holds hyphens:
             # the date stays one cell of one column
             for c in (1, 2, 3):
@@ -193,8 +200,14 @@ def check_point(pt):
         rkw = {"ignore_data_comments": pt["marker"]} if pt.get("marker") else {}
         if pt["kind"] == "wrapflag":
             rkw["use_normal_engine_for_wrapped"] = False
+        if pt["kind"] == "dtypes":
+            names = [cv[0] for cv in curves]
+            rkw["dtypes"] = ({n: float for n in names} if pt["dtypes"] == "dict" else
+                             [float] * (len(names) if pt["dtypes"] == "list" else max(len(names) - 1, 1)))
         las = lasio.read(text, engine=pt["engine"], **rkw)
     except Exception as e:
+        if pt["kind"] == "dtypes":
+            return [], nontriv, "raise(dtypes)", {}, 1
         # the statement defines the outcome for these inputs, so they must read
         return [V("defined-case-raises", "a successful read with %d curves x %d rows" % (max(c, d), r),
                   "%s: %s" % (type(e).__name__, str(e)[:200]))], nontriv, "raise", {}, 1
